@@ -9,15 +9,78 @@ import Csvq.Model.FormatTime
 import Csvq.Model.CellText
 import Csvq.Model.CastFull
 import Csvq.Model.Unicode
+import Csvq.Model.ZoneProfile
 namespace Csvq.Drive
 open Csvq Csvq.Proto
 
 def showCalc : CalcRes → String
   | .null => "N" | .int i => "I" ++ toString i | .flt f => "F" ++ showF f | .divZero => "E"
 
+/-- the session prefix of the z-ops: `<offset> x<abbreviation> <number of formats> x<format>…`, then the rest -/
+def parseSession : List String → Option (Session × List String)
+  | off :: ab :: nf :: rest =>
+    match off.toInt?, parseHexX ab, nf.toNat? with
+    | some off, some ab, some nf =>
+      if rest.length < nf then none
+      else match (rest.take nf).mapM parseHexX with
+        | some fmts => some ({ zone := { off := off, abbr := ab }, fmts := fmts }, rest.drop nf)
+        | none => none
+    | _, _, _ => none
+  | _ => none
+
+/-- the operator positions over values whose profile the MODEL derives under a session (texts included) -/
+def c06z (cmd : String) (args : List String) : String :=
+  let bad := "bad-op"
+  match parseSession args with
+  | none => bad
+  | some (se, rest) =>
+    match cmd, rest with
+    | "sdtz", [h] =>
+      match parseHexX h with
+      | some b =>
+        let r := TP.strToTime se.zone se.fmts b
+        -- under UTC without formats the full model and Model/ParseTime.lean must be the same function
+        if se.zone.off = 0 && se.fmts.isEmpty && r != PT.strToTime b then "model-split"
+        else showOpt toString r
+      | none => bad
+    | "zcmp", [a, b] =>
+      match parseVal a, parseVal b with
+      | some a, some b =>
+        let a := profileZ se a
+        let b := profileZ se b
+        String.intercalate " " [(cmp a b).toStr, (opEq a b).toStr, (opNe a b).toStr, (opLt a b).toStr,
+          (opLe a b).toStr, (opGt a b).toStr, (opGe a b).toStr]
+      | _, _ => bad
+    | "zbetween", [v, lo, hi] =>
+      match parseVal v, parseVal lo, parseVal hi with
+      | some v, some lo, some hi =>
+        (evalBetween false (profileZ se v) (profileZ se lo) (profileZ se hi)).toStr ++ " "
+          ++ (evalBetween true (profileZ se v) (profileZ se lo) (profileZ se hi)).toStr
+      | _, _, _ => bad
+    | "zin", v :: l =>
+      match parseVal v, l.mapM parseVal with
+      | some v, some l =>
+        (evalIn false (profileZ se v) (l.map (profileZ se))).toStr ++ " " ++ (evalIn true (profileZ se v) (l.map (profileZ se))).toStr
+      | _, _ => bad
+    | "zcase", v :: l =>
+      match parseVal v, l.mapM parseVal with
+      | some v, some l => showOpt toString (caseIdx (some (profileZ se v)) (l.map (profileZ se)) 0)
+      | _, _ => bad
+    | _, _ => bad
+
 def c06 (cmd : String) (args : List String) : String :=
   let bad := "bad-op"
   match cmd, args with
+  | "sdtz", _ => c06z cmd args
+  | "zcmp", _ => c06z cmd args
+  | "zbetween", _ => c06z cmd args
+  | "zin", _ => c06z cmd args
+  | "zcase", _ => c06z cmd args
+  | "dfmtu", [h] =>
+    -- value.ConvertDatetimeFormat of an arbitrary byte string (runes, verbs, WriteRune)
+    match parseHexX h with
+    | some b => hex (TP.userLayout b)
+    | none => bad
   | "cmp", [a, b] =>
     match parseProfile a, parseProfile b with
     | some a, some b =>
